@@ -119,6 +119,8 @@ type Sched struct {
 	EarlyTimers bool // one-shot timers may fire before quiescence (environment alternative)
 	MaxSteps    int
 	onDeadlock  func()
+	fast        bool
+	enBuf       []trans
 
 	ticks        int
 	lastTickStep int
@@ -147,6 +149,10 @@ type Config struct {
 	// OnDeadlock runs (on the thread that detected it, before anything is
 	// killed) when no transition is enabled; it must not call shim operations.
 	OnDeadlock func()
+	// Fast: default schedule only, no Trace recorded: the first enabled
+	// transition in canonical order is taken without computing the others
+	// (same schedule as an empty Prefix; for deterministic single executions).
+	Fast bool
 }
 
 // Run executes body as thread 0 under the scheduler following cfg.Prefix, then
@@ -154,7 +160,7 @@ type Config struct {
 func Run(cfg Config, body func()) *Sched {
 	s := &Sched{prefix: cfg.Prefix, ack: make(chan struct{}), finished: make(chan struct{}),
 		closed: map[uintptr]bool{}, exited: make(chan struct{}, 4096),
-		MaxTicks: cfg.MaxTicks, EarlyTimers: cfg.EarlyTimers, MaxSteps: cfg.MaxSteps, Verbose: cfg.Verbose, onDeadlock: cfg.OnDeadlock}
+		MaxTicks: cfg.MaxTicks, EarlyTimers: cfg.EarlyTimers, MaxSteps: cfg.MaxSteps, Verbose: cfg.Verbose, onDeadlock: cfg.OnDeadlock, fast: cfg.Fast && len(cfg.Prefix) == 0}
 	if s.MaxTicks == 0 {
 		s.MaxTicks = 4
 	}
@@ -423,18 +429,24 @@ func (s *Sched) schedule(t *Thread, exiting bool) {
 			s.stop(t, exiting)
 			return
 		}
-		var en []trans
+		en := s.enBuf[:0]
 		curEnabled := false
 		if !exiting {
 			en = s.enabledOf(t, en)
 			curEnabled = len(en) > 0
 		}
-		for _, o := range s.threads {
-			if o == t || o.done {
-				continue
+		if !(s.fast && len(en) > 0) {
+			for _, o := range s.threads {
+				if o == t || o.done {
+					continue
+				}
+				en = s.enabledOf(o, en)
+				if s.fast && len(en) > 0 {
+					break
+				}
 			}
-			en = s.enabledOf(o, en)
 		}
+		s.enBuf = en[:0]
 		if s.EarlyTimers && len(en) > 0 {
 			for _, tm := range s.timers {
 				if !tm.dead && tm.period == 0 {
@@ -464,7 +476,7 @@ func (s *Sched) schedule(t *Thread, exiting bool) {
 			s.ticks = 0
 		}
 		idx := 0
-		if len(en) > 1 {
+		if len(en) > 1 && !s.fast {
 			if len(s.Trace) < len(s.prefix) {
 				idx = s.prefix[len(s.Trace)]
 				if idx >= len(en) || idx < 0 {
